@@ -201,7 +201,7 @@ def main(run: core.Run) -> None:
                           "near_miss_loop-without-state", "near_miss_return-not-last",
                           "near_miss_loop-var-read-after-loop", "near_miss_mixed-opset-in-branch", "corpus_programs"],
                          ["subscript", "sibling-subgraphs", "sibling-for", "sibling-while", "sibling-if",
-                          "user-names-like-generated", "for", "while"])
+                          "user-names-like-generated", "for", "while", "callee-calls-inside-control-flow"])
     gen_refused = stats["refused"] - stats.get("near_miss_programs", 0) + sum(
         1 for f in sf if f.get("near_miss_accepted"))
     if stats["programs"] >= 20 and gen_refused > 0.3 * max(1, stats["programs"] - stats.get("near_miss_programs", 0)):
